@@ -389,6 +389,125 @@ Ok_ReportPriority(b) == Len(b) >= 4 /\ Nn(b, 0, 4) + 4 <= Len(b)
                         /\ LET end == Nn(b, 0, 4) + 4  offs == RpOffsets(b, 4, end) IN
                            IF offs = <<>> THEN end = 4 ELSE offs[Len(offs)] + 8 + Nn(b, offs[Len(offs)] + 6, 2) = end
 
+\* =========================== parameter lists sent to the device (C05) ===========================
+\* For data-out lists every embedded length must be EXACT: Exact(fmt, b).
+
+\* MODE SELECT parameter list = mode parameter header + block descriptors + pages (SPC-4 7.5.4); the
+\* library writes MODE DATA LENGTH as in MODE SENSE data (n-0 / n-1); a value of 0 (reserved for
+\* MODE SELECT) is accepted as well
+PagesEnd(b, hdrlen, bdl) ==
+    LET offs == PageOffsets(b, hdrlen + bdl, Len(b)) IN
+    IF offs = <<>> THEN hdrlen + bdl ELSE offs[Len(offs)] + PageAt(b, offs[Len(offs)], "")[2]
+Exact_ModeSelect6(b) == Len(b) >= 4 /\ Nn(b, 0, 1) \in {0, Len(b) - 1} /\ PagesEnd(b, 4, Nn(b, 3, 1)) = Len(b)
+Exact_ModeSelect10(b) == Len(b) >= 8 /\ Nn(b, 0, 2) \in {0, Len(b) - 2} /\ PagesEnd(b, 8, Nn(b, 6, 2)) = Len(b)
+P_ModeSelect6(b) == { Nm("medium_type", Fl(b, 1, 7, 8)), Nm("device_specific_parameter", Fl(b, 2, 7, 8)) }
+                    \cup ModeData(b, 4, Len(b), Nn(b, 3, 1))
+P_ModeSelect10(b) == { Nm("medium_type", Fl(b, 2, 7, 8)), Nm("device_specific_parameter", Fl(b, 3, 7, 8)), Nm("longlba", Fl(b, 4, 0, 1)) }
+                     \cup ModeData(b, 8, Len(b), Nn(b, 6, 2))
+
+\* iSCSI TransportID (SPC-4 table 509/510): ADDITIONAL LENGTH bytes 2-3 (n-3), name from byte 4,
+\* NUL-terminated and NUL-padded to a multiple of 4; format 01b appends ",i,0x" and the ISID
+RECURSIVE UpToNul(_)
+UpToNul(d) == IF d = <<>> \/ d[1] = 0 THEN <<>> ELSE <<d[1]>> \o UpToNul(Tail(d))
+TransportIdOut(p, d) ==
+    TransportId(p, d) \cup
+    (IF NatOfNum(Fl(d, 0, 3, 4)) = 5 THEN { Bl(p \o "/iscsi_text", UpToNul(Bs(d, 4, Nn(d, 2, 2)))) } ELSE {})
+Exact_Tid(d) ==
+    IF NatOfNum(Fl(d, 0, 3, 4)) = 5
+    THEN LET al == Nn(d, 2, 2)  txt == UpToNul(Bs(d, 4, al)) IN
+         /\ Len(d) = al + 4 /\ al % 4 = 0 /\ Len(txt) < al /\ al - Len(txt) <= 4      \* terminated, minimally padded
+         /\ \A i \in (4 + Len(txt) + 1)..Len(d) : d[i] = 0
+    ELSE Len(d) = 24
+
+\* PERSISTENT RESERVE OUT parameter lists (SPC-4 tables 224, 225, 227)
+PrOutKeys(b) == { Nm("reservation_key", Un(b, 0, 8)), Nm("service_action_reservation_key", Un(b, 8, 8)) }
+P_PrOutBasic(b) == PrOutKeys(b) \cup { Nm("spec_i_pt", Fl(b, 20, 3, 1)), Nm("all_tg_pt", Fl(b, 20, 2, 1)), Nm("aptpl", Fl(b, 20, 0, 1)) }
+Exact_PrOutBasic(b) == Len(b) = 24
+RECURSIVE TidOffsets(_, _, _)
+TidOffsets(b, off, end) == IF off + 4 > end THEN <<>>
+                           ELSE LET sz == TidSize(Bs(b, off, end - off)) IN
+                                IF off + sz > end THEN <<>> ELSE <<off>> \o TidOffsets(b, off + sz, end)
+P_PrOutSpecIpt(b) ==
+    LET offs == TidOffsets(b, 28, Len(b)) IN
+    P_PrOutBasic(b) \cup { Cnt("transport_ids", Len(offs)) }
+    \cup UNION { TransportIdOut(Idx("transport_ids", i - 1), Bs(b, offs[i], TidSize(Bs(b, offs[i], Len(b) - offs[i])))) : i \in 1..Len(offs) }
+Exact_PrOutSpecIpt(b) ==
+    /\ Len(b) >= 28 /\ Nn(b, 24, 4) = Len(b) - 28
+    /\ LET offs == TidOffsets(b, 28, Len(b)) IN
+       /\ (IF offs = <<>> THEN Len(b) = 28 ELSE offs[Len(offs)] + TidSize(Bs(b, offs[Len(offs)], Len(b) - offs[Len(offs)])) = Len(b))
+       /\ \A i \in 1..Len(offs) : Exact_Tid(Bs(b, offs[i], TidSize(Bs(b, offs[i], Len(b) - offs[i]))))
+P_PrOutRegMove(b) ==
+    PrOutKeys(b) \cup { Nm("unreg", Fl(b, 17, 1, 1)), Nm("aptpl", Fl(b, 17, 0, 1)), Nm("relative_target_port_id", Fl(b, 18, 7, 16)) }
+    \cup (IF Len(b) > 24 THEN TransportIdOut("transport_id", Bs(b, 24, Len(b) - 24)) ELSE {})
+Exact_PrOutRegMove(b) == Len(b) >= 24 /\ Nn(b, 20, 4) = Len(b) - 24 /\ (Len(b) > 24 => Exact_Tid(Bs(b, 24, Len(b) - 24)))
+
+\* EXTENDED COPY parameter lists (SPC-4 6.4: LID1 table 105 ff.; LID4 table 108 ff.)
+\* CSCD descriptor E4h (identification descriptor, 32 bytes, table 117): type code 0, LU ID TYPE 1.7:2,
+\* PERIPHERAL DEVICE TYPE 1.4:5, RELATIVE INITIATOR PORT IDENTIFIER 2-3, CODE SET 4.3:4, ASSOCIATION 5.5:2,
+\* DESIGNATOR TYPE 5.3:4, DESIGNATOR LENGTH 7, DESIGNATOR 8-27, device type specific 28-31 (block: PAD 28.2,
+\* DISK BLOCK LENGTH 29-31)
+Cscd(b, o, p, pk) ==
+    { Nm(p \o "/descriptor_type_code", Fl(b, o, 7, 8)), Nm(p \o "/lu_id_type", Fl(b, o + 1, 7, 2)),
+      Nm(p \o "/peripheral_device_type", Fl(b, o + 1, 4, 5)), Nm(p \o "/relative_initiator_port_identifier", Fl(b, o + 2, 7, 16)),
+      Nm(p \o "/" \o pk \o "/code_set", Fl(b, o + 4, 3, 4)), Nm(p \o "/" \o pk \o "/association", Fl(b, o + 5, 5, 2)),
+      Nm(p \o "/" \o pk \o "/designator_type", Fl(b, o + 5, 3, 4)),
+      Nm(p \o "/device_type_specific_parameters/pad", Fl(b, o + 28, 2, 1)),
+      Nm(p \o "/device_type_specific_parameters/disk_block_length", Fl(b, o + 29, 7, 24)) }
+    \cup Designator(p \o "/" \o pk \o "/designator", NatOfNum(Fl(b, o + 5, 3, 4)), Bs(b, o + 8, Nn(b, o + 7, 1)))
+\* segment descriptors: 00h/01h/0Bh/0Ch block<->stream (24 bytes, tables 121/122): CAT 1.0, DESCRIPTOR LENGTH 2-3
+\* (0014h), source 4-5, destination 6-7, STREAM DEVICE TRANSFER LENGTH 9-11, BLOCK DEVICE NUMBER OF BLOCKS 14-15,
+\* BLOCK DEVICE LBA 16-23; 02h/0Dh block->block (28 bytes, table 123): DC 1.1 CAT 1.0, length 0018h, source,
+\* destination, NUMBER OF BLOCKS 10-11, source LBA 12-19, destination LBA 20-27
+SegSize(code) == IF code \in {2, 13} THEN 28 ELSE 24
+Seg(b, o, p, sk, dk) ==
+    LET code == Nn(b, o, 1) IN
+    { Nm(p \o "/descriptor_type_code", Fl(b, o, 7, 8)), Nm(p \o "/cat", Fl(b, o + 1, 0, 1)),
+      Nm(p \o "/" \o sk, Fl(b, o + 4, 7, 16)), Nm(p \o "/" \o dk, Fl(b, o + 6, 7, 16)) } \cup
+    (IF code \in {2, 13}
+     THEN { Nm(p \o "/dc", Fl(b, o + 1, 1, 1)), Nm(p \o "/block_device_number_of_blocks", Fl(b, o + 10, 7, 16)),
+            Nm(p \o "/source_block_device_logical_block_address", Fl(b, o + 12, 7, 64)),
+            Nm(p \o "/destination_block_device_logical_block_address", Fl(b, o + 20, 7, 64)) }
+     ELSE { Nm(p \o "/stream_device_transfer_length", Fl(b, o + 9, 7, 24)),
+            Nm(p \o "/block_device_number_of_blocks", Fl(b, o + 14, 7, 16)),
+            Nm(p \o "/block_device_logical_block_address", Fl(b, o + 16, 7, 64)) })
+RECURSIVE SegOffsets(_, _, _)
+SegOffsets(b, off, end) == IF off + 4 > end THEN <<>>
+                           ELSE LET sz == SegSize(Nn(b, off, 1)) IN
+                                IF off + sz > end THEN <<>> ELSE <<off>> \o SegOffsets(b, off + sz, end)
+XcopyBody(b, hdr, tl, sl, il, pk, sk, dk, tname) ==
+    LET nt == tl \div 32
+        so == SegOffsets(b, hdr + tl, hdr + tl + sl) IN
+    { Cnt(tname, nt), Cnt("segment_descriptor_list", Len(so)), Bl("inline_data", Bs(b, hdr + tl + sl, il)) }
+    \cup UNION { Cscd(b, hdr + 32 * i, Idx(tname, i), pk) : i \in 0..(nt - 1) }
+    \cup UNION { Seg(b, so[i], Idx("segment_descriptor_list", i - 1), sk, dk) : i \in 1..Len(so) }
+XcopyExact(b, hdr, tl, sl, il) ==
+    /\ Len(b) = hdr + tl + sl + il /\ tl % 32 = 0
+    /\ LET so == SegOffsets(b, hdr + tl, hdr + tl + sl) IN
+       /\ (IF so = <<>> THEN sl = 0 ELSE so[Len(so)] + SegSize(Nn(b, so[Len(so)], 1)) = hdr + tl + sl)
+       /\ \A i \in 1..Len(so) : Nn(b, so[i] + 2, 2) = SegSize(Nn(b, so[i], 1)) - 4      \* DESCRIPTOR LENGTH (n-3)
+P_XcopyLid1(b) ==
+    { Nm("list_identifier", Fl(b, 0, 7, 8)), Nm("sequential_striped", Fl(b, 1, 5, 1)), Nm("nrcr", Fl(b, 1, 4, 1)), Nm("priority", Fl(b, 1, 2, 3)) }
+    \cup XcopyBody(b, 16, Nn(b, 2, 2), Nn(b, 8, 4), Nn(b, 12, 4), "target_descriptor_parameters",
+                   "source_target_descriptor_id", "destination_target_descriptor_id", "target_descriptor_list")
+Exact_XcopyLid1(b) == Len(b) >= 16 /\ XcopyExact(b, 16, Nn(b, 2, 2), Nn(b, 8, 4), Nn(b, 12, 4))
+P_XcopyLid4(b) ==
+    { Nm("sequential_striped", Fl(b, 1, 5, 1)), Nm("list_id_usage", Fl(b, 1, 4, 2)), Nm("priority", Fl(b, 1, 2, 3)),
+      Nm("g_sense", Fl(b, 15, 1, 1)), Nm("immed", Fl(b, 15, 0, 1)), Nm("list_identifier", Fl(b, 20, 7, 32)) }
+    \cup XcopyBody(b, 48, Nn(b, 42, 2), Nn(b, 44, 2), Nn(b, 46, 2), "cscd_descriptor_parameters",
+                   "source_cscd_descriptor_id", "destination_cscd_descriptor_id", "cscd_descriptor_list")
+Exact_XcopyLid4(b) == Len(b) >= 48 /\ Nn(b, 0, 1) = 1 /\ Nn(b, 2, 2) = 32 /\ Nn(b, 16, 1) = 255
+                      /\ XcopyExact(b, 48, Nn(b, 42, 2), Nn(b, 44, 2), Nn(b, 46, 2))
+
+OutFormats == { "ModeSelect6", "ModeSelect10", "PrOutBasic", "PrOutSpecIpt", "PrOutRegMove", "XcopyLid1", "XcopyLid4" }
+ParseOut(fmt, b) ==
+    CASE fmt = "ModeSelect6" -> P_ModeSelect6(b) [] fmt = "ModeSelect10" -> P_ModeSelect10(b)
+      [] fmt = "PrOutBasic" -> P_PrOutBasic(b) [] fmt = "PrOutSpecIpt" -> P_PrOutSpecIpt(b) [] fmt = "PrOutRegMove" -> P_PrOutRegMove(b)
+      [] fmt = "XcopyLid1" -> P_XcopyLid1(b) [] fmt = "XcopyLid4" -> P_XcopyLid4(b)
+Exact(fmt, b) ==
+    CASE fmt = "ModeSelect6" -> Exact_ModeSelect6(b) [] fmt = "ModeSelect10" -> Exact_ModeSelect10(b)
+      [] fmt = "PrOutBasic" -> Exact_PrOutBasic(b) [] fmt = "PrOutSpecIpt" -> Exact_PrOutSpecIpt(b)
+      [] fmt = "PrOutRegMove" -> Exact_PrOutRegMove(b) [] fmt = "XcopyLid1" -> Exact_XcopyLid1(b) [] fmt = "XcopyLid4" -> Exact_XcopyLid4(b)
+
 \* ---- dispatch -----------------------------------------------------------------------------------
 Formats == { "ReadCapacity10", "ReadCapacity16", "ReportLuns", "GetLBAStatus", "InquiryStd", "Vpd00", "Vpd80",
              "Vpd83", "Vpd86", "VpdB0", "VpdB1", "VpdB2", "VpdB3", "ModeSense6", "ModeSense10", "RtpgLen", "RtpgExt",
